@@ -8,6 +8,7 @@ From DBG Require Interop.DispatchScan.
 From DBG Require Interop.DispatchFilter.
 From DBG Require Interop.DispatchUnitig.
 From DBG Require Interop.DispatchEdges.
+From DBG Require Interop.DispatchRecomp.
 Import ListNotations.
 Open Scope N_scope.
 
@@ -133,6 +134,7 @@ Definition dispatchers : list (string -> val -> option val) :=
   [ d_kmer; d_spec_kmer; d_exts; run_table generic_spec_ops; d_seq;
     DispatchGraph.d_graph;
     DispatchUnitig.d_unitig;
+    DispatchRecomp.d_recomp;
     DispatchAscii.d_ascii;
     DispatchBBHash.d_bbhash;
     (fun op v => if DispatchScan.is_scan_op op then DispatchScan.d_scan op v else None);
